@@ -122,8 +122,9 @@ Print Assumptions C10_stamps_once.
 (* What the tasks are told.  The argument map that a START_ACTIVITY reaching RUNNING pushes to the
    tasks carries the new run number, the new start stamp and the CLEARED end stamp (present and
    empty, so that a task does not keep the end stamp of the previous run), and no completion
-   stamp - whatever the variables held before.  Which variables are in the map is read from
-   StartActivityTransition.do / StopActivityTransition.do by the translator (gen/Gen_StartArgs.v). *)
+   stamp - whatever the variables held before.  Which variables are in the map is re-observed on the
+   real StartActivityTransition / StopActivityTransition objects on every run (h08 -gen startargs
+   writes gen/Gen_StartArgs.v). *)
 Theorem C10_start_push_fresh : forall hooks orc b s s' t r d,
   transition hooks orc START_ACTIVITY b s = (s', t, r) -> dst_of START_ACTIVITY (e_st s) = Some d ->
   e_st s' <> e_st s ->
